@@ -344,6 +344,9 @@ pub struct Server {
     /// An extended protocol COPY FROM STDIN has ended: the server sends ReadyForQuery
     /// only in reply to the client's next Sync.
     awaiting_sync: bool,
+
+    /// An ErrorResponse has arrived since the last ReadyForQuery.
+    error_in_reply: bool,
 }
 
 impl Server {
@@ -850,6 +853,7 @@ impl Server {
                         evicted_prepared_statements: Vec::new(),
                         copy_in_extended: false,
                         awaiting_sync: false,
+                        error_in_reply: false,
                     };
 
                     return Ok(server);
@@ -977,6 +981,21 @@ impl Server {
                         }
                     };
 
+                    // After an error the server skips everything up to the Sync: the Parses of this
+                    // batch that are still waiting for their answer will not get one. They are
+                    // not prepared.
+                    if self.error_in_reply {
+                        self.error_in_reply = false;
+
+                        while let Some(skipped_name) =
+                            self.registering_prepared_statement.pop_front()
+                        {
+                            if let Some(ref mut cache) = self.prepared_statement_cache {
+                                cache.pop(&skipped_name);
+                            }
+                        }
+                    }
+
                     // There is no more data available from the server.
                     self.data_available = false;
                     self.awaiting_sync = false;
@@ -986,6 +1005,7 @@ impl Server {
                 // ErrorResponse
                 'E' => {
                     let end_of_reply = self.end_copy();
+                    self.error_in_reply = true;
 
                     // Remove the prepared statement from the cache, it has a syntax error or something else bad happened.
                     if let Some(prepared_stmt_name) =
